@@ -448,3 +448,143 @@ def coq_value(v):
     if t == "F":
         return "(VFun [%s])" % "; ".join("(%s, %s)" % (coq_value(k), coq_value(x)) for k, x in v[1])
     raise ValueError(v)
+
+
+# ---------------------------------------------------------------- fnv1a as the runtime hashes values (third implementation,
+# used only to CONSTRUCT colliding values; the check never trusts it: Go's hashes are observed)
+M32 = 0xFFFFFFFF
+OFFSET32, PRIME32 = 2166136261, 16777619
+
+
+def _add_byte(h, b):
+    return ((h ^ b) * PRIME32) & M32
+
+
+def _add_u32(h, u):
+    for sh in (24, 16, 8, 0):
+        h = _add_byte(h, (u >> sh) & 0xFF)
+    return h
+
+
+def _hash_u32(u):
+    return _add_u32(OFFSET32, u & M32)
+
+
+def py_hash(v):
+    t = v[0]
+    if t == "W":
+        return py_hash(v[2])
+    if t == "d":
+        return 0
+    if t == "b":
+        return _hash_u32(1 if v[1] else 0)
+    if t == "n":
+        return _hash_u32(v[1] & M32)
+    if t == "s":
+        h = OFFSET32
+        for b in v[1].encode("utf8"):
+            h = _add_byte(h, b)
+        return h
+    if t == "S":
+        x = 0
+        seen = set()
+        for e in v[1]:
+            if sem(e) not in seen:
+                seen.add(sem(e)); x ^= py_hash(e)
+        return _hash_u32(x)
+    if t == "T":
+        h = OFFSET32
+        for e in v[1]:
+            h = _add_u32(h, py_hash(e))
+        return h
+    if t == "F":
+        d = {}
+        for k, x in v[1]:
+            d[sem(k)] = (k, x)
+        acc = 0
+        for k, x in d.values():
+            acc ^= _add_u32(_add_u32(OFFSET32, py_hash(k)), py_hash(x))
+        return _hash_u32(acc)
+    raise ValueError(v)
+
+
+def s32(u):
+    u &= M32
+    return u - (1 << 32) if u >= (1 << 31) else u
+
+
+def collider(v):
+    """a value of ANOTHER kind with exactly the same 32-bit hash as v, or None"""
+    t = v[0]
+    if t == "W":
+        return collider(v[2])
+    if t == "S":
+        x = 0
+        seen = set()
+        for e in v[1]:
+            if sem(e) not in seen:
+                seen.add(sem(e)); x ^= py_hash(e)
+        return ["n", s32(x)]                      # Hash({..}) = HashUint32(xor of member hashes) = Hash(that number)
+    if t == "F":
+        d = {}
+        for k, x in v[1]:
+            d[sem(k)] = (k, x)
+        acc = 0
+        for k, x in d.values():
+            acc ^= _add_u32(_add_u32(OFFSET32, py_hash(k)), py_hash(x))
+        return ["n", s32(acc)]
+    if t == "n":
+        return ["b", v[1] == 1] if v[1] in (0, 1) else ["S", [["d"]]] if False else None
+    if t == "b":
+        return ["n", 1 if v[1] else 0]
+    if t == "T" and not v[1]:
+        return ["s", ""]
+    if t == "s" and v[1] == "":
+        return ["T", []]
+    return None
+
+
+COLLISION_CLUSTERS = [
+    [["n", 0], ["b", False], ["S", []], ["F", []]],      # all hash to HashUint32(0)
+    [["n", 1], ["b", True]],
+    [["T", []], ["s", ""]],
+]
+
+
+def low_bits_pool(rng, bits=10, size=14):
+    """integers whose hashes agree on the low `bits` bits (they share the HAMT path down to depth bits/5)"""
+    target = rng.randrange(1 << bits)
+    out, n = [], rng.randint(-50000, 50000)
+    while len(out) < size:
+        if py_hash(["n", n]) & ((1 << bits) - 1) == target:
+            out.append(["n", n])
+        n += 1
+    return out
+
+
+def collision_members(rng, n_min=9, n_max=14):
+    """members for a set / keys for a function with more than 8 entries (the immutable.Map array-node ->
+    bitmap-node threshold), containing full 32-bit hash collisions and shared low hash bits"""
+    ms = []
+    for cl in rng.sample(COLLISION_CLUSTERS, rng.randint(1, 3)):
+        ms += rng.sample(cl, rng.randint(2, len(cl)))
+    for _ in range(rng.randint(1, 3)):
+        base = gen_value(rng, rng.randint(1, 2), True, 3)
+        c = collider(base)
+        if c is not None and sem(c) != sem(base):
+            ms += [base, c]
+    ms += low_bits_pool(rng, rng.choice([5, 10]), rng.randint(3, 6))
+    while len({json.dumps(sem_key(m)) for m in ms}) < n_min:
+        ms.append(gen_leaf(rng))
+    # drop duplicates by denotation, keep order
+    seen, out = set(), []
+    for m in ms:
+        k = sem(m)
+        if k not in seen:
+            seen.add(k); out.append(m)
+    rng.shuffle(out)
+    return out[:n_max]
+
+
+def sem_key(v):
+    return repr(sem(v))
